@@ -27,6 +27,9 @@
 // process-wide, so a per-call pause file is impossible) and still forces "Done() precedes the
 // launcher's wait" exactly for each of them. (c) N in {2,8} concurrent calls: all natural, all
 // forced, or mixed = two caller processes running at the same time, one forced and one natural.
+// (d)/(e) the same with a launcher process that lingers 50 / 300 ms between daemon.Run()
+// returning true and os.Exit(0): a program with a slow clean-up in the documented
+// "if daemon.Run() { os.Exit(0) }" - a launcher that is still alive after it stopped listening.
 package main
 
 import (
@@ -52,6 +55,10 @@ import (
 type Group struct {
 	Forced bool  `json:"forced"`    // launchers paused after cmd.Start() until all daemons returned from Done()
 	Delays []int `json:"delays_ms"` // one Launch call per entry: handler dl-<i> sleeps this long before Done()
+	// LingerMs: every launcher process of this caller lingers that long between daemon.Run()
+	// returning true and os.Exit(0) - the documented "if daemon.Run() { os.Exit(0) }" with a
+	// slow clean-up in between.
+	LingerMs int `json:"launcher_linger_ms,omitempty"`
 }
 
 // Case is one replayable scenario: the groups run at the same time.
@@ -65,7 +72,7 @@ func (cs Case) shape() string {
 	var sb strings.Builder
 	sb.WriteString(cs.Sched)
 	for _, g := range cs.Groups {
-		fmt.Fprintf(&sb, "|f=%v:%v", g.Forced, g.Delays)
+		fmt.Fprintf(&sb, "|f=%v:%v:l%d", g.Forced, g.Delays, g.LingerMs)
 	}
 	return sb.String()
 }
@@ -155,6 +162,9 @@ func runCase(cs Case, c *drv.Ctx, root string) (vd verdict) {
 		cmd := exec.Command(self)
 		cmd.Env = append(cleanEnv(), envRole+"=caller", envDir+"="+gr.dir, envSeq+"="+cs.Id,
 			envDelays+"="+joinInts(gr.g.Delays), envSup+"="+strconv.Itoa(os.Getpid()))
+		if gr.g.LingerMs > 0 {
+			cmd.Env = append(cmd.Env, envLinger+"="+strconv.Itoa(gr.g.LingerMs))
+		}
 		if gr.g.Forced {
 			cmd.Env = append(cmd.Env, envForced+"=1", "GLB_VERIF_PAUSE=launch.afterStart:"+filepath.Join(gr.dir, flagName))
 		}
@@ -326,8 +336,12 @@ func schedOf(cs Case, gr *groupRun) string {
 }
 
 func describe(cs Case, gr *groupRun, i int) string {
-	return fmt.Sprintf("Launch(%q) [call %d of %d concurrent in this caller, %d caller(s); schedule %s; handler sleeps %d ms before Done()]",
-		handlerName(i), i+1, len(gr.g.Delays), len(cs.Groups), schedOf(cs, gr), gr.g.Delays[i])
+	linger := ""
+	if gr.g.LingerMs > 0 {
+		linger = fmt.Sprintf("; launcher process lingers %d ms between daemon.Run() and os.Exit(0)", gr.g.LingerMs)
+	}
+	return fmt.Sprintf("Launch(%q) [call %d of %d concurrent in this caller, %d caller(s); schedule %s; handler sleeps %d ms before Done()%s]",
+		handlerName(i), i+1, len(gr.g.Delays), len(cs.Groups), schedOf(cs, gr), gr.g.Delays[i], linger)
 }
 
 // judgeHang: the caller did not exit within the watchdog. Only process state can turn that into
@@ -398,6 +412,8 @@ func waitFor(limit time.Duration, cond func() bool) bool {
 	}
 }
 
+var doneRecordsLate bool // per shard process, see judgeExited
+
 // judgeExited evaluates a caller that printed its report and exited.
 func judgeExited(cs Case, gr *groupRun, c *drv.Ctx) verdict {
 	n := len(gr.g.Delays)
@@ -430,8 +446,24 @@ func judgeExited(cs Case, gr *groupRun, c *drv.Ctx) verdict {
 		}
 	}
 	os.WriteFile(filepath.Join(gr.dir, "ping"), nil, 0o644)
-	// every daemon is expected to write done.<pid>; bounded wait, used for classification only
-	waitFor(settleWatchdog, func() bool { return len(listPrefixed(gr.dir, "done.")) >= n })
+	// every daemon is expected to write done.<pid> once Done() returned; bounded wait, used to
+	// classify failures and for the evidence counters. A Done() that blocks is no violation of
+	// this property: when every call of a scenario succeeded and the records still did not
+	// arrive, later scenarios of this process wait only briefly.
+	needDone := false
+	for _, r := range rep.Calls {
+		if r.Failed || !r.MarkerPresent || !r.PreDonePresent {
+			needDone = true
+		}
+	}
+	w := settleWatchdog
+	if !needDone && doneRecordsLate {
+		w = 300 * time.Millisecond
+	}
+	if !waitFor(w, func() bool { return len(listPrefixed(gr.dir, "done.")) >= n }) && !needDone {
+		doneRecordsLate = true
+		c.Add("scenarios_without_all_done_records", 1)
+	}
 	markers, dones := readDir(gr.dir)
 
 	var incon []string
@@ -439,7 +471,19 @@ func judgeExited(cs Case, gr *groupRun, c *drv.Ctx) verdict {
 		what := describe(cs, gr, i)
 		mi, haveMi := markerOfIdx(markers, i)
 		di := dones[mi.Pid]
+		_, haveDi := dones[mi.Pid]
+		var pdi PreDone
+		havePdi := haveMi && readJSON(filepath.Join(gr.dir, fmt.Sprintf("predone.%d", mi.Pid)), &pdi)
+		// premise "the handler started up and called Done()": it returned from Done() without
+		// error, or (Done() may block) it wrote predone with the launcher still its parent -
+		// the next statement is Done() - has not reported an error and is alive
 		premise := haveMi && di.Called && di.Err == ""
+		inDone := false
+		if haveMi && !haveDi && havePdi && pdi.Calling {
+			if st, same := sameProcess(mi.Pid, mi.Start); same && st.alive() {
+				premise, inDone = true, true
+			}
+		}
 		expOK := fmt.Sprintf("%s returns (pid of the process running handler %s, nil) only after that process called Done()", what, handlerName(i))
 		c.Add("launches", 1)
 		c.Add("launches."+sched, 1)
@@ -447,9 +491,19 @@ func judgeExited(cs Case, gr *groupRun, c *drv.Ctx) verdict {
 			c.Add("forced_launches", 1)
 			if r.FlagPresent {
 				c.Add("forced_launches_flag_existed_at_return", 1) // the launcher was released by the flag
-				if premise && di.PpidSettled == mi.Launcher {
-					// ... and it was still there 20 ms after Done() returned, before the flag existed
-					c.Add("forced_launches_launcher_held_by_hook", 1)
+			} else if !r.Failed {
+				c.Add("forced_launches_released_without_flag", 1) // the hook's own 5 s bound ended the pause
+			}
+			if gr.g.LingerMs == 0 {
+				// hook witness (only where the launcher exits at once after its wait): the launcher
+				// was still the daemon's parent 20 ms after Done() was called
+				c.Add("forced_launches_nolinger", 1)
+				if havePdi && pdi.Calling {
+					var sp Pong
+					sf := filepath.Join(gr.dir, fmt.Sprintf("settled.%d", mi.Pid))
+					if waitFor(settleWatchdog, func() bool { return exists(sf) }) && readJSON(sf, &sp) && sp.Ppid == mi.Launcher {
+						c.Add("forced_launches_nolinger_launcher_held_by_hook", 1)
+					}
 				}
 			}
 		} else {
@@ -468,8 +522,8 @@ func judgeExited(cs Case, gr *groupRun, c *drv.Ctx) verdict {
 			if premise {
 				st, same := sameProcess(mi.Pid, mi.Start)
 				return verdict{key: "launch-error:" + normErr(r.Err) + "@" + sched, expected: expOK,
-					observed: fmt.Sprintf("Launch returned (%d, %q) although daemon %d (handler %s) wrote its marker, returned from Done() with err=nil and is %s (state %s, parent %d)",
-						r.Pid, r.Err, mi.Pid, handlerName(i), aliveWord(same && st.alive()), st.State, st.Ppid)}
+					observed: fmt.Sprintf("Launch returned (%d, %q) although daemon %d (handler %s) wrote its marker, %s and is %s (state %s, parent %d)",
+						r.Pid, r.Err, mi.Pid, handlerName(i), doneWord(inDone), aliveWord(same && st.alive()), st.State, st.Ppid)}
 			}
 			incon = append(incon, fmt.Sprintf("%s failed with %q and no daemon of that handler returned from a successful Done() (marker=%v done=%+v): premise of the property not established", what, r.Err, haveMi, di))
 			continue
@@ -559,6 +613,13 @@ func judgeExited(cs Case, gr *groupRun, c *drv.Ctx) verdict {
 	return verdict{}
 }
 
+func doneWord(inDone bool) string {
+	if inDone {
+		return "called Done() with the launcher still its parent (Done() has not returned yet)"
+	}
+	return "returned from Done() with err=nil"
+}
+
 func aliveWord(b bool) string {
 	if b {
 		return "running"
@@ -573,7 +634,7 @@ type mon struct{}
 func (mon) Name() string { return "daemonlaunch" }
 
 func (mon) Level(string) (string, string) {
-	return "exploration", "scenarios = caller processes calling daemon.Launch 1, 2 or 8 times concurrently; schedules: natural timing with the handler sleeping 0/5/200 ms before Done(); forced early Done() (launcher held by the verif pause hook right after cmd.Start() until every daemon of the caller returned from Done()); concurrent calls all natural, all forced, or one forced and one natural caller at the same time. Other timings of the three processes are sampled by repetition only. distinct_nontrivial = distinct (schedule class, forced flag and delay vector per caller) shapes"
+	return "exploration", "scenarios = caller processes calling daemon.Launch 1, 2 or 8 times concurrently; schedules: natural timing with the handler sleeping 0/5/200 ms before Done(); forced early Done() (launcher held by the verif pause hook right after cmd.Start() until every daemon of the caller returned from Done()); concurrent calls all natural, all forced, or one forced and one natural caller at the same time; all of these again with a launcher process that lingers 50/300 ms between daemon.Run() returning and os.Exit(0). Other timings of the three processes are sampled by repetition only. distinct_nontrivial = distinct (schedule class, forced flag and delay vector per caller) shapes"
 }
 
 func (mon) Assumptions(string) []string {
@@ -594,7 +655,12 @@ var classes = []string{
 	"a-d0", "a-d5", "a-d200",
 	"b-d0", "b-d5", "b-d200",
 	"c-natural-2", "c-natural-8", "c-forced-2", "c-forced-8", "c-mixed-2", "c-mixed-8",
+	// the launcher process lingers after daemon.Run() returned true (slow clean-up before os.Exit)
+	"d-natural-l50", "d-natural-l300", "d-forced-l50", "d-forced-l300",
+	"e-natural-2", "e-natural-8", "e-forced-2", "e-forced-8", "e-mixed-2", "e-mixed-8",
 }
+
+var lingerChoices = []int{50, 300}
 
 func (mon) Plan(prop, tier string, seed int64) []drv.Shard {
 	runs, parts := 10, 1
@@ -622,7 +688,10 @@ func genCase(class string, seed int64, part, run int) Case {
 	case "a", "b":
 		d, _ := strconv.Atoi(strings.TrimPrefix(f[1], "d"))
 		cs.Groups = []Group{{Forced: f[0] == "b", Delays: []int{d}}}
-	case "c":
+	case "d":
+		l, _ := strconv.Atoi(strings.TrimPrefix(f[2], "l"))
+		cs.Groups = []Group{{Forced: f[1] == "forced", Delays: []int{delayChoices[r.Intn(len(delayChoices))]}, LingerMs: l}}
+	case "c", "e":
 		n, _ := strconv.Atoi(f[2])
 		delays := make([]int, n)
 		for i := range delays {
@@ -637,6 +706,11 @@ func genCase(class string, seed int64, part, run int) Case {
 			k := 1 + r.Intn(n-1) // calls of the first caller
 			first := r.Intn(2) == 0
 			cs.Groups = []Group{{Forced: first, Delays: delays[:k]}, {Forced: !first, Delays: delays[k:]}}
+		}
+		if f[0] == "e" {
+			for i := range cs.Groups {
+				cs.Groups[i].LingerMs = lingerChoices[r.Intn(len(lingerChoices))]
+			}
 		}
 	}
 	return cs
@@ -722,8 +796,8 @@ func (mn mon) Replay(v drv.Violation, c *drv.Ctx) {
 }
 
 func (mon) Finish(prop, tier string, mg *drv.Merged) (incon []string) {
-	if f, h := mg.Sum["forced_launches"], mg.Sum["forced_launches_launcher_held_by_hook"]; f > 0 && h*2 < f && mg.Sum["forced_launches_failed"] == 0 {
-		incon = append(incon, fmt.Sprintf("the pause hook held the launcher in only %d of %d forced launches (launcher still the daemon's parent 20 ms after Done() and done.flag present when Launch returned): built without -tags verif or hook missing in this checkout", h, f))
+	if f, h := mg.Sum["forced_launches_nolinger"], mg.Sum["forced_launches_nolinger_launcher_held_by_hook"]; f > 0 && h*2 < f && mg.Sum["forced_launches_failed"] == 0 {
+		incon = append(incon, fmt.Sprintf("the pause hook held the launcher in only %d of %d forced launches without launcher linger (launcher still the daemon's parent 20 ms after Done() was called): built without -tags verif or hook missing in this checkout", h, f))
 	}
 	if mg.Sum["liveness_checks"] > 0 && mg.Sum["daemon_answered_ping_after_caller_exit"] == 0 {
 		incon = append(incon, "no daemon ever answered a ping after its caller exited")
@@ -738,6 +812,12 @@ func main() {
 		daemon.Register(handlerName(i), func() { daemonMain(i) })
 	}
 	if daemon.Run() {
+		// a program may do some clean-up here; schedules d-* / e-* make the launcher do so
+		if os.Getenv("ENV_DAEMON_FLAG") == "isLauncher" {
+			if ms, _ := strconv.Atoi(os.Getenv(envLinger)); ms > 0 {
+				time.Sleep(time.Duration(ms) * time.Millisecond)
+			}
+		}
 		os.Exit(0)
 	}
 	if os.Getenv(envRole) == "caller" {
